@@ -28,12 +28,16 @@ impl SecondaryStorage {
             if fs::metadata(&options.path).await.is_err() {
                 info!("create db directory at {:?}", options.path);
                 fs::create_dir(&options.path).await?;
+                #[cfg(risinglight_verif)]
+                crate::verif::point_sync("persist.boot.mkdir.db", &options.path.to_string_lossy());
             }
 
             // create DV folder if not exist
             let dv_directory = options.path.join("dv");
             if fs::metadata(&dv_directory).await.is_err() {
                 fs::create_dir(&dv_directory).await?;
+                #[cfg(risinglight_verif)]
+                crate::verif::point_sync("persist.boot.mkdir.dv", &dv_directory.to_string_lossy());
             }
         }
 
@@ -44,6 +48,9 @@ impl SecondaryStorage {
         } else {
             Manifest::open(options.path.join(MANIFEST_FILE_NAME), enable_fsync).await?
         };
+
+        #[cfg(risinglight_verif)]
+        crate::verif::point_sync("persist.boot.manifest.opened", "");
 
         let manifest_ops = manifest.replay().await?;
 
@@ -130,9 +137,13 @@ impl SecondaryStorage {
                         (table_id.parse::<u32>(), rowset_id.parse::<u32>())
                     && !rowsets_to_open.contains_key(&(table_id, rowset_id))
                 {
+                    #[cfg(risinglight_verif)]
+                    crate::verif::point_sync("persist.boot.vacuum", &entry.path().to_string_lossy());
                     fs::remove_dir_all(entry.path())
                         .await
                         .expect("failed to vacuum unused rowsets");
+                    #[cfg(risinglight_verif)]
+                    crate::verif::point_sync("persist.boot.vacuum.done", &entry.path().to_string_lossy());
                 }
             }
         }
@@ -175,6 +186,9 @@ impl SecondaryStorage {
                 .rewrite_changes(changeset, &options.path)
                 .await?;
         }
+
+        #[cfg(risinglight_verif)]
+        crate::verif::point_sync("persist.boot.done", "");
 
         Ok(engine)
     }
